@@ -185,6 +185,11 @@ struct Config {
     /// 0 = NoMergePolicy, n>0 = LogMergePolicy with min_num_segments n
     policy: usize,
     mmap: bool,
+    /// index sorting: 0 none, 1 by `grp` ascending, 2 by `grp` descending, 3 by `id` descending
+    /// (doc ids inside a segment are then NOT in opstamp order: the per-document opstamp map of
+    /// `apply_deletes` is permuted)
+    #[serde(default)]
+    sort: u8,
 }
 
 #[derive(Serialize, Deserialize, Clone, Debug)]
@@ -376,7 +381,14 @@ impl Exec {
         } else {
             Dir::Ram(RamDirectory::create())
         };
-        let index = Index::create(dir.open(), schema, Default::default()).unwrap();
+        let mut settings = tantivy::IndexSettings::default();
+        settings.sort_by_field = match cfg.sort {
+            1 => Some(tantivy::IndexSortByField { field: "grp".into(), order: tantivy::Order::Asc }),
+            2 => Some(tantivy::IndexSortByField { field: "grp".into(), order: tantivy::Order::Desc }),
+            3 => Some(tantivy::IndexSortByField { field: "id".into(), order: tantivy::Order::Desc }),
+            _ => None,
+        };
+        let index = Index::create(dir.open(), schema, settings).unwrap();
         tantivy::verif::set_segment_cut_docs(cfg.cut);
         let mut e = Exec {
             cfg: cfg.clone(),
@@ -1216,7 +1228,7 @@ fn gen_case(rng: &mut Rng, profile: u64) -> Case {
     let threads = match rng.below(6) { 0 | 1 => 1, 2 => 2, 3 => 3, 4 => 4, _ => 8 };
     let cut = *rng.pick(&[0u32, 0, 1, 2, 3, 5]);
     let policy = *rng.pick(&[0usize, 0, 2, 3]);
-    let config = Config { threads, cut, policy, mmap: rng.chance(1, 12) };
+    let config = Config { threads, cut, policy, mmap: rng.chance(1, 12), sort: *rng.pick(&[0u8, 0, 0, 0, 1, 2, 3, 3]) };
     let mut g = Gen { next_id: rng.below(3), live_guess: vec![] };
     let mut ops: Vec<HOp> = vec![];
     let n = 8 + rng.usize_below(if profile == 2 { 70 } else { 40 });
@@ -1405,7 +1417,7 @@ fn gen_memcut_case(rng: &mut Rng, shape: u64) -> Case {
         }
     }
     ops.push(HOp::Commit);
-    Case { config: Config { threads, cut: 0, policy: 0, mmap: false }, ops }
+    Case { config: Config { threads, cut: 0, policy: 0, mmap: false, sort: 0 }, ops }
 }
 
 /// F9, deterministically: the segment-updater thread of the old writer is held (by the
@@ -1864,6 +1876,7 @@ fn run_case(ctx: &mut Ctx, case: &Case) -> Vec<Finding> {
         }
         ctx.report.count(&format!("threads:{}", case.config.threads));
         ctx.report.count(&format!("cut:{}", case.config.cut));
+        ctx.report.count(&format!("sort:{}", ["none", "grp-asc", "grp-desc", "id-desc"][(case.config.sort % 4) as usize]));
         ctx.report.count(&format!("merge-policy:{}", if case.config.policy == 0 { "none".to_string() } else { format!("log{}", case.config.policy) }));
         ctx.report.count(&format!("max-segments:{}", match e.nsegs_max { 0 => "0", 1 => "1", 2..=3 => "2-3", 4..=7 => "4-7", _ => "8+" }));
         drop(e.writer.take());
@@ -1914,7 +1927,7 @@ fn report_findings(ctx: &mut Ctx, case: &Case, findings: Vec<Finding>) {
 
 /// hand-written corpus: the three known shapes and their clean neighbours
 fn corpus() -> Vec<Case> {
-    let cfg = |threads, cut| Config { threads, cut, policy: 0, mmap: false };
+    let cfg = |threads, cut| Config { threads, cut, policy: 0, mmap: false, sort: 0 };
     vec![
         // F1
         Case { config: cfg(1, 0), ops: vec![HOp::Add(1), HOp::Add(2), HOp::Commit] },
@@ -1928,14 +1941,17 @@ fn corpus() -> Vec<Case> {
         Case { config: cfg(1, 0), ops: vec![HOp::Add(7), HOp::Add(8), HOp::Commit, HOp::Rollback, HOp::DelTerm(Q::Id(7)), HOp::Merge(1), HOp::DropReopen(true)] },
         // F8 through the merge policy (shape reported by the C01 check): one-document segments,
         // reopen, first operation a delete by term, adds, wait_merging_threads without commit
-        Case { config: Config { threads: 1, cut: 1, policy: 2, mmap: false }, ops: vec![HOp::Add(1), HOp::Add(2), HOp::Add(3), HOp::Commit, HOp::DropReopen(true), HOp::DelTerm(Q::Grp(doc_grp(2))), HOp::Add(4), HOp::Add(5), HOp::Add(6), HOp::WaitMergeReopen] },
+        Case { config: Config { threads: 1, cut: 1, policy: 2, mmap: false, sort: 0 }, ops: vec![HOp::Add(1), HOp::Add(2), HOp::Add(3), HOp::Commit, HOp::DropReopen(true), HOp::DelTerm(Q::Grp(doc_grp(2))), HOp::Add(4), HOp::Add(5), HOp::Add(6), HOp::WaitMergeReopen] },
         // the same with the delete as *second* operation: must equal the replay (a difference here
         // would be a new violation, not F8)
-        Case { config: Config { threads: 1, cut: 1, policy: 2, mmap: false }, ops: vec![HOp::Add(1), HOp::Add(2), HOp::Add(3), HOp::Commit, HOp::DropReopen(true), HOp::Add(4), HOp::DelTerm(Q::Grp(doc_grp(2))), HOp::Add(5), HOp::Add(6), HOp::WaitMergeReopen] },
+        Case { config: Config { threads: 1, cut: 1, policy: 2, mmap: false, sort: 0 }, ops: vec![HOp::Add(1), HOp::Add(2), HOp::Add(3), HOp::Commit, HOp::DropReopen(true), HOp::Add(4), HOp::DelTerm(Q::Grp(doc_grp(2))), HOp::Add(5), HOp::Add(6), HOp::WaitMergeReopen] },
         // clean delete_all: equals replay
         Case { config: cfg(2, 1), ops: vec![HOp::Add(1), HOp::Add(2), HOp::Commit, HOp::DropReopen(true), HOp::DeleteAll, HOp::Add(3), HOp::Commit, HOp::Add(4), HOp::Rollback, HOp::DeleteAll, HOp::Commit] },
         // delete only earlier, same segment / other segment / committed segment
         Case { config: cfg(1, 2), ops: vec![HOp::Add(1), HOp::Add(2), HOp::Add(3), HOp::Commit, HOp::Add(4), HOp::DelQuery(Q::All), HOp::Add(5), HOp::Add(6), HOp::DelTerm(Q::Id(7)), HOp::Add(7), HOp::Commit] },
+        // the same on indexes sorted by id descending / grp ascending: doc ids are not in opstamp order
+        Case { config: Config { threads: 1, cut: 3, policy: 0, mmap: false, sort: 3 }, ops: vec![HOp::Add(1), HOp::Add(2), HOp::Add(3), HOp::Commit, HOp::Add(4), HOp::DelQuery(Q::All), HOp::Add(5), HOp::Add(6), HOp::DelTerm(Q::Id(7)), HOp::Add(7), HOp::DelTerm(Q::Tag(doc_tag(6))), HOp::Add(8), HOp::Commit, HOp::Merge(3), HOp::DropReopen(true)] },
+        Case { config: Config { threads: 2, cut: 0, policy: 2, mmap: false, sort: 1 }, ops: vec![HOp::Add(1), HOp::Add(2), HOp::DelTerm(Q::Grp(doc_grp(2))), HOp::Add(3), HOp::Add(4), HOp::Batch(vec![BItem::Add(5), BItem::Del(Q::Id(5)), BItem::Add(6), BItem::Del(Q::Grp(doc_grp(1)))]), HOp::Add(7), HOp::Commit, HOp::Add(8), HOp::DelTerm(Q::Id(3)), HOp::Commit] },
         // batch: delete then re-add inside one batch
         Case { config: cfg(3, 1), ops: vec![HOp::Add(1), HOp::Batch(vec![BItem::Del(Q::Id(1)), BItem::Add(2), BItem::Del(Q::Id(2)), BItem::Add(3), BItem::Del(Q::Id(4)), BItem::Add(4)]), HOp::Batch(vec![]), HOp::Commit] },
     ]
